@@ -253,7 +253,14 @@ package sizes
 //@   modifies t.footnotes.footnotes, map(t.footnotes.indexes)
 //@   call 0 levelOfConcern as loc
 //@   call 0 formatRow as row
+//@   call 0 CreateCitation as cite
 //@   ensures row_reached == loc1
+// "every footnote is cited": a footnote is created only for a row that is
+// written, and the citation written into that row is the one just created;
+// a suppressed row leaves the footnote table (and everything else) untouched.
+//@   ensures cite_reached == loc1
+//@   ensures !loc1 ==> unchanged_all()
+//@   call 0 formatRow assert cite_reached && same(arg_2, cite) && same(arg_1, i.name)
 //@   ensures wfFootnotes(t.footnotes)
 
 // JSON v2: value, referenceValue and levelOfConcern are the same terms the
